@@ -492,6 +492,12 @@ func CellOrigin(v ssa.Value) ssa.Value {
 			}
 		}
 		if cell == nil {
+			// a field of a local record that never leaves the function and whose field is assigned exactly once
+			// (values that travel together kept in one struct variable): the value that was assigned
+			if fv, ok := localRecordField(v); ok {
+				v = Unwrap(fv)
+				continue
+			}
 			return v
 		}
 		var stored ssa.Value
@@ -1246,4 +1252,54 @@ func (s *Sem) newTypeFieldHasRole(t types.Type, field, role string) bool {
 		}
 	}
 	return n > 0
+}
+
+// localRecordField: v loads field f of a struct kept in a local variable; every use of the variable is a field
+// access (it is never copied, passed or stored as a whole) and field f is stored exactly once, by a store that
+// dominates the load. Returns the stored value.
+func localRecordField(v ssa.Value) (ssa.Value, bool) {
+	u, ok := v.(*ssa.UnOp)
+	if !ok || u.Op != token.MUL {
+		return nil, false
+	}
+	fa, ok := u.X.(*ssa.FieldAddr)
+	if !ok {
+		return nil, false
+	}
+	al, ok := fa.X.(*ssa.Alloc)
+	if !ok {
+		return nil, false
+	}
+	if _, isStruct := al.Type().(*types.Pointer).Elem().Underlying().(*types.Struct); !isStruct {
+		return nil, false
+	}
+	var st *ssa.Store
+	n := 0
+	for _, ref := range *al.Referrers() {
+		f2, isFA := ref.(*ssa.FieldAddr)
+		if !isFA {
+			if _, isDbg := ref.(*ssa.DebugRef); isDbg {
+				continue
+			}
+			return nil, false
+		}
+		for _, r2 := range *f2.Referrers() {
+			switch x := r2.(type) {
+			case *ssa.Store:
+				if x.Addr != ssa.Value(f2) {
+					return nil, false // the field's address is stored somewhere
+				}
+				if f2.Field == fa.Field {
+					st, n = x, n+1
+				}
+			case *ssa.UnOp, *ssa.DebugRef:
+			default:
+				return nil, false // address of a field taken (passed on, sliced, ...)
+			}
+		}
+	}
+	if n != 1 || !InstrDominates(st, u) {
+		return nil, false
+	}
+	return st.Val, true
 }
